@@ -86,6 +86,10 @@ def run_case(case):
         res["findings"].append({"signature": known or ("cpp-reject:" + util.outcome_signature(o1)),
                                 "what": "program with inserted directives rejected: %s" % str(o1.exc)[:200], "replay": rp})
         return res
+    if case["seed"] % 2 == 0:
+        fs, info = util.block_cosim(src, std=std, ignore_comments=not keep, case=case)
+        res["findings"] += fs
+        res["counts"]["block-cosim"] = 1
     a, b = treeutil.sig(o0.tree), strip_cpp(treeutil.sig(o1.tree))
     if a != b:
         d = treeutil.first_diff(a, b)
